@@ -29,7 +29,7 @@ def _reconf(rng):
     if fam == "exit_in":
         return ["exit_in", rng.randint(1, 3)]
     if fam == "stepmon":
-        return ["stepmon", rng.choice(["plain", "verbose"])]
+        return ["stepmon", rng.choice(["plain", "verbose", "none", "null", "nullclass"])]
     return [fam]
 
 
@@ -43,7 +43,7 @@ def random_script(rng, kind, maxlen=8):
     if rng.random() < 0.5:
         ops.append(["limits", rng.choice([NONE, 0, 1, 2, 3, 5]), rng.choice([NONE, 0, 1, 3, 7, 12, 30]), False])
     if rng.random() < 0.2:
-        ops.append(["stepmon", rng.choice(["plain", "verbose"])])
+        ops.append(["stepmon", rng.choice(["plain", "verbose", "none", "null"])])
     ops.append(["step"] if rng.random() < 0.8 else ["solve"])
     ops.append(_reconf(rng))
     while len(ops) < n:
